@@ -99,7 +99,8 @@ package value
 //@   ensures fresh(result) && result != nil && len(result.value) == 0 && fresh(result.value)
 //@ func NewEmptyHashMap
 //@   modifies nothing
-//@   ensures fresh(result) && hmWF(result) && len(result.keyOrder) == 0
+//@   ensures fresh(result) && hmWF(result) && len(result.keyOrder) == 0 && fresh(result.value) && (result.keyOrder.base == 0 || fresh(result.keyOrder))
+//@   ensures [empty] forall k string :: !has(result.value, k)
 
 //@ method (*Number).GetValue
 //@   pure
@@ -333,6 +334,7 @@ package value
 //@   requires hmWF(hm) && okElem(pair.Value)
 //@   modifies hm.keyOrder, mem(hm.keyOrder), map(hm.value)
 //@   ensures hmWF(hm) && hm.value == old(hm.value)
+//@   ensures [storage] hm.keyOrder.base == old(hm.keyOrder.base) || fresh(hm.keyOrder)
 //@   ensures [written] has(hm.value, pair.Key) && hm.value[pair.Key] == pair.Value
 //@   ensures [others-kept] forall k string :: k != pair.Key ==> has(hm.value, k) == old(has(hm.value, k)) && hm.value[k] == old(hm.value[k])
 //@   ensures [overwrite-keeps-place] old(has(hm.value, pair.Key)) ==> len(hm.keyOrder) == old(len(hm.keyOrder)) &&
@@ -446,7 +448,10 @@ package value
 //@   requires model != nil
 //@   modifies nothing
 //@   ensures fresh(result) && result != nil && result.model == model && fresh(result.propList)
-//@   loop 1 invariant fresh(objPropList)
+//@   ensures [same-properties] forall k string :: has(result.propList, k) <==> has(model.propList, k)
+//@   ensures [initial-values-win] forall k string :: has(model.propList, k) && has(initProps, k) ==> result.propList[k] == initProps[k]
+//@   loop 1 invariant fresh(objPropList) && (forall k string :: visited(k) ==> has(model.propList, k)) && (forall k string :: has(objPropList, k) <==> visited(k)) &&
+//@                    (forall k string :: visited(k) && has(initProps, k) ==> objPropList[k] == initProps[k])
 
 //@ func NewFunction
 //@   requires executor != nil
@@ -562,3 +567,6 @@ package value
 //@   assumes okElem(instance)
 //@   modifies nothing
 //@   ensures r0 == instance && r1 == nil
+
+// ---- C11: determinism inventories ----
+//@ maprange NewObject#1 determined same-properties,initial-values-win : the property map of the new object is pinned down key by key; default values are fresh copies (DuplicateValue has no other effect)
